@@ -20,4 +20,6 @@ def run(rep, fb, tier):
     lints.rule_raw_store(rep, fb)
     from ..rules import lints as _ly
     _ly.rule_growth_progress(rep, fb)
+    from ..rules import lints as _lv
+    _lv.rule_call_roles(rep, fb)
     rep.units = fb.units
